@@ -4,7 +4,7 @@
 #   other runs against /repo are not disturbed), runs the quick checks, undoes the change.
 d=$(realpath $1); shift
 cd /verif
-if [ -n "$MUT" ]; then repo=/tmp/mut; export VF_REPO=/tmp/mut; else repo=/repo; fi
+if [ -n "$MUT" ]; then repo=/tmp/mut; export VF_REPO=/tmp/mut; git -C /repo worktree list | grep -q /tmp/mut || git -C /repo worktree add -q --detach /tmp/mut HEAD; git -C /tmp/mut checkout -q --detach main; else repo=/repo; fi
 git -C $repo apply $d/patch.diff || exit 2
 for p in "$@"; do
   out=$(./check $p 2>&1); rc=$?
